@@ -1,10 +1,14 @@
 package world
 
 import (
+	"context"
 	"encoding/hex"
 	"fmt"
 	"os"
+	"reflect"
 	"sort"
+	"sync"
+	"unsafe"
 
 	"github.com/tikv/client-go/v2/testutils"
 	"github.com/tikv/client-go/v2/tikv"
@@ -28,7 +32,11 @@ var ScratchDir = func() string {
 func (w *World) newEngine(kind string) (storage.KvStorage, bool, error) {
 	switch kind {
 	case "", "memkv":
-		return imemkv.NewKvStorage(), true, nil
+		st := imemkv.NewKvStorage()
+		// memkv takes its store mutex in BeginBatchWrite and keeps it until Commit, so nothing may park
+		// while a batch is open (lazy mode). Should an engine version not do that, batches are opened
+		// eagerly like on the other engines, so that other tasks can commit in between.
+		return st, batchHoldsLock(st), nil
 	case "badger":
 		dir, err := os.MkdirTemp(ScratchDir, "verif-badger-")
 		if err != nil {
@@ -76,4 +84,27 @@ func (w *World) CloseEngines() {
 		c()
 	}
 	w.closers = nil
+}
+
+// batchHoldsLock reports whether the engine keeps a sync.Mutex field named "mu" locked while a
+// batch is open (probed through reflection; true if it cannot tell).
+func batchHoldsLock(st storage.KvStorage) (held bool) {
+	held = true
+	defer func() { recover() }()
+	v := reflect.ValueOf(st)
+	if v.Kind() != reflect.Ptr || v.Elem().Kind() != reflect.Struct {
+		return
+	}
+	f := v.Elem().FieldByName("mu")
+	if !f.IsValid() || f.Type() != reflect.TypeOf(sync.Mutex{}) {
+		return
+	}
+	mu := (*sync.Mutex)(unsafe.Pointer(f.UnsafeAddr()))
+	b := st.BeginBatchWrite()
+	if mu.TryLock() {
+		mu.Unlock()
+		held = false
+	}
+	b.Commit(context.Background())
+	return
 }
